@@ -1,9 +1,123 @@
+import PbBss.Model.Pipeline
 import Driver.Util
-/-! line-protocol operations of the `Pipeline` models (stub: filled in by the owner of these models) -/
+/-! line-protocol operations of the `Pipeline` models (C17), run at `α := Float`, `β := CF`.
+
+Every token after the op name is a decimal integer; floats are IEEE-754 bit patterns, complex numbers are
+`re im` pairs, arrays are row-major (NumPy C order). -/
+open PbBss PbBss.Pipeline
 namespace Driver
 
+/-- `np.finfo(np.float64).tiny` -/
+def tinyP : Float := 2.2250738585072014e-308
+
+/-- all tokens after the op name, parsed once -/
+def natToks (a : Array String) : Array Nat := (a.extract 1 a.size).map fun s => s.toNat!
+
+def fAt (n : Array Nat) (i : Nat) : Float := Float.ofBits (n[i]!).toUInt64
+def cAt (n : Array Nat) (off i : Nat) : CF := ⟨fAt n (off + 2*i), fAt n (off + 2*i + 1)⟩
+
+def fmtCF (xs : List CF) : String := fmtFloats (xs.flatMap fun z => [z.re, z.im])
+
+def finOr {n : Nat} (h : 0 < n) (i : Nat) : Fin n := if hi : i < n then ⟨i, hi⟩ else ⟨0, h⟩
+
 def opsPipeline (a : Array String) : Option String :=
+  let n := natToks a
   match a[0]! with
+  | "scene" =>
+    -- scene K D k sigma[K] eps[K] a[K*D complex]  ->  noisePsd (D*D complex) ++ classPsd_k (D*D complex)
+    let K := n[0]!; let D := n[1]!
+    if hK : 0 < K then
+      let k : Fin K := finOr hK n[2]!
+      let sigma : Fin K → Float := fun j => fAt n (3 + j.val)
+      let eps : Fin K → Float := fun j => fAt n (3 + K + j.val)
+      let st : Fin K → Fin D → CF := fun j d => cAt n (3 + 2*K) (j.val * D + d.val)
+      let nn := noisePsd sigma eps st k
+      let xx := classPsd (sigma k) (eps k) (st k)
+      some (fmtCF (((List.finRange D).flatMap fun d => (List.finRange D).map fun e => nn d e) ++
+                   ((List.finRange D).flatMap fun d => (List.finRange D).map fun e => xx d e)))
+    else none
+  | "souden" =>
+    -- souden D ref sigma a[D] u[D]   ->  souden(tiny, sigma u aᴴ, ref)   (D complex)
+    let D := n[0]!
+    if hD : 0 < D then
+      let ref : Fin D := finOr hD n[1]!
+      let sigma := fAt n 2
+      let av : Fin D → CF := fun d => cAt n 3 d.val
+      let u : Fin D → CF := fun d => cAt n (3 + 2*D) d.val
+      some (fmtCF ((List.finRange D).map (souden tinyP (rankOnePhi sigma av u) ref)))
+    else none
+  | "wmwf" =>
+    -- wmwf D ref mu sigma a[D] u[D]   ->  wmwf(mu, sigma u aᴴ, ref)
+    let D := n[0]!
+    if hD : 0 < D then
+      let ref : Fin D := finOr hD n[1]!
+      let mu := fAt n 2
+      let sigma := fAt n 3
+      let av : Fin D → CF := fun d => cAt n 4 d.val
+      let u : Fin D → CF := fun d => cAt n (4 + 2*D) d.val
+      some (fmtCF ((List.finRange D).map (wmwf mu (rankOnePhi sigma av u) ref)))
+    else none
+  | "mvdr" =>
+    -- mvdr D a[D] u[D]  ->  u / (aᴴ u)
+    let D := n[0]!
+    let av : Fin D → CF := fun d => cAt n 1 d.val
+    let u : Fin D → CF := fun d => cAt n (1 + 2*D) d.val
+    some (fmtCF ((List.finRange D).map (mvdrFromSolve (α := Float) av u)))
+  | "sir" =>
+    -- sir K D k sigma[K] eps[K] p[K] a[K*D] w[D] v[D]
+    --   -> signal interference eps‖w‖² quadForm(noisePsd,w) zfBound sirOut sirLower p-signal p-interference |wᴴa_k|²
+    let K := n[0]!; let D := n[1]!
+    if hK : 0 < K then
+      let k : Fin K := finOr hK n[2]!
+      let sigma : Fin K → Float := fun j => fAt n (3 + j.val)
+      let epsv : Fin K → Float := fun j => fAt n (3 + K + j.val)
+      let p : Fin K → Float := fun j => fAt n (3 + 2*K + j.val)
+      let o := 3 + 3*K
+      let st : Fin K → Fin D → CF := fun j d => cAt n o (j.val * D + d.val)
+      let w : Fin D → CF := fun d => cAt n (o + 2*K*D) d.val
+      let v : Fin D → CF := fun d => cAt n (o + 2*K*D + 2*D) d.val
+      let eps := noiseEps epsv k
+      let psig : Fin K → Float := fun j => p j * sigma j
+      some (fmtFloats [
+        outPower sigma st w k,
+        interference sigma st w k,
+        eps * normSq (α := Float) w,
+        quadForm (α := Float) (noisePsd sigma epsv st k) w,
+        zfBound eps v,
+        sirOut sigma st w k,
+        sirLower (sigma k) eps v,
+        outPower psig st w k,
+        interference psig st w k,
+        absSq (α := Float) (cdot Float w (st k))])
+    else none
+  | "axes" =>
+    -- axes F K T D post[F*K*T] Y[F*D*T complex] mapping[K*F] g[K] W[K*F*D complex]
+    --   -> pipelinePsd (F,K,D,D) ++ noiseFromPsd (F,K,D,D) ++ applyBf(W[k], Y) (K,F,T)
+    let F := n[0]!; let K := n[1]!; let T := n[2]!; let D := n[3]!
+    if hK : 0 < K then
+      let oP := 4
+      let oY := oP + F*K*T
+      let oM := oY + 2*F*D*T
+      let oG := oM + K*F
+      let oW := oG + K
+      let post : Fin F → Fin K → Fin T → Float := fun f k t => fAt n (oP + (f.val * K + k.val) * T + t.val)
+      let obs : Fin F → Fin D → Fin T → CF := fun f d t => cAt n oY ((f.val * D + d.val) * T + t.val)
+      let m : Fin K → Fin F → Fin K := fun k f => finOr hK n[oM + k.val * F + f.val]!
+      let g : Fin K → Fin K := fun k => finOr hK n[oG + k.val]!
+      let W : Fin K → Fin F → Fin D → CF := fun k f d => cAt n oW ((k.val * F + f.val) * D + d.val)
+      let P := pipelinePsd (1e-10 : Float) obs post m g
+      -- tabulate the PSDs once (the noise PSD sums them)
+      let tab : Array CF := ((List.finRange F).flatMap fun f => (List.finRange K).flatMap fun k =>
+        (List.finRange D).flatMap fun d => (List.finRange D).map fun e => P f k d e).toArray
+      let Pt : Fin F → Fin K → Fin D → Fin D → CF := fun f k d e => tab[((f.val * K + k.val) * D + d.val) * D + e.val]!
+      let N := noiseFromPsd Pt
+      let nn := (List.finRange F).flatMap fun f => (List.finRange K).flatMap fun k =>
+        (List.finRange D).flatMap fun d => (List.finRange D).map fun e => N f k d e
+      let bf := (List.finRange K).flatMap fun k =>
+        let y := applyBf (α := Float) (W k) obs
+        (List.finRange F).flatMap fun f => (List.finRange T).map fun t => y f t
+      some (fmtCF (tab.toList ++ nn ++ bf))
+    else none
   | _ => none
 
 end Driver
